@@ -100,11 +100,18 @@ let judge op args got =
       let asis = simplest_from_ieee_asis mb eb bits in
       let e = Zar.logand (Zar.shift_right bits (Zar.to_int mb)) (Zar.pred (Zar.shift_left Zar.one (Zar.to_int eb))) in
       let m = Zar.logand bits (Zar.pred (Zar.shift_left Zar.one (Zar.to_int mb))) in
-      let bias = Zar.pred (Zar.shift_left Zar.one (Zar.to_int eb - 1)) in
-      let ex = Zar.sub (Zar.sub (if Zar.sign e = 0 then Zar.one else e) bias) mb in
-      let known_tag =
-        if Zar.sign ex > 0 then Some "ieee_large_exponent_interval" else None in
-      let cls = if Zar.sign e = 0 then "subnormal" else if Zar.sign m = 0 then "pow2" else if Zar.sign ex > 0 then "large" else "normal" in
+      let large = known_ieee mb eb bits in
+      let known_tag = if large then Some "ieee_large_exponent_interval" else None in
+      let cls = if Zar.sign e = 0 then "subnormal" else if Zar.sign m = 0 then "pow2" else if large then "large" else "normal" in
+      (* self-check of the interval specification against the shared rounding specification:
+         an end point is included iff it rounds to the float, and the specified answer rounds to it *)
+      let selfcheck = match ieee_interval_spec mb eb bits with
+        | Some (Some (((lo, hi), ilo), ihi)) ->
+            let v = ieee_value mb eb bits in
+            let rt x = (ieee_round mb eb x = Some v) in
+            rt lo = ilo && rt hi = ihi && (match spec with Ok (Some r) -> rt r | _ -> false)
+        | _ -> true in
+      if not selfcheck then fail "SPEC-SELFCHECK-FAILED(ieee-interval-vs-spec_round)" else
       verdict ~cls ~want:(res_str optq spec) ~asis:(res_str optq asis) ~known_tag got
   | "from_float" ->
       let b = usz (a 0) and md = mode_of (a 1) and p = usz (a 2) in
@@ -128,13 +135,12 @@ let judge op args got =
         if spec0 <> spec then fail "SPEC-SELFCHECK-FAILED(normalisation-dependent)" else
         if not selfcheck then fail "SPEC-SELFCHECK-FAILED(rounding-interval-vs-spec_round)"
         else begin
-          let half = (match md with MHalfEven | MHalfAway -> true | _ -> false) in
           let known_tag =
             if Zar.sign sg = 0 then None
-            else if Zar.sign p = 0 then (match md with MAway | MUp | MDown -> Some "float_unlimited_precision_panic" | _ -> None)
-            else if half && Zar.is_odd b then Some "float_odd_base_half_ulp"
-            else if md = MHalfEven then Some "float_halfeven_parity"
-            else if Zar.equal (Zar.abs sg) Zar.one then Some "float_pow_base_lower_ulp"
+            else if known_unlimited md p then Some "float_unlimited_precision_panic"
+            else if known_oddbase b md p then Some "float_odd_base_half_ulp"
+            else if known_halfeven md p then Some "float_halfeven_parity"
+            else if known_powbase p sg then Some "float_pow_base_lower_ulp"
             else None in
           let cls = a 1 ^ (if Zar.sign p = 0 then "-p0" else if Zar.equal (Zar.abs sg) Zar.one then "-pow" else "") in
           verdict ~cls ~want:(res_str optq spec) ~asis:(res_str optq asis) ~known_tag got
